@@ -433,11 +433,29 @@ func LoadContracts(repo, mirror string, modPath string, importPaths []string) (*
 	for _, ip := range importPaths {
 		rel := strings.TrimPrefix(strings.TrimPrefix(ip, modPath), "/")
 		repoFiles, _ := filepath.Glob(filepath.Join(repo, rel, "zz_contracts*_verif.go"))
+		mirrorFiles, _ := filepath.Glob(filepath.Join(mirror, rel, "zz_contracts*_verif.go"))
 		files := repoFiles
 		if len(files) == 0 {
-			files, _ = filepath.Glob(filepath.Join(mirror, rel, "zz_contracts*_verif.go"))
+			files = mirrorFiles
 			if len(files) > 0 {
 				cs.Notes = append(cs.Notes, "contracts for "+ip+" read from /verif mirror (repo copy absent)")
+			}
+		} else if len(mirrorFiles) > 0 {
+			// /verif/contracts is the source of truth; the repo copy is the hook commit. If they differ
+			// (contracts edited after the last hook commit) the mirror is used and the fact is noted.
+			same := len(repoFiles) == len(mirrorFiles)
+			if same {
+				for i := range repoFiles {
+					a, _ := os.ReadFile(repoFiles[i])
+					b, _ := os.ReadFile(mirrorFiles[i])
+					if string(a) != string(b) {
+						same = false
+					}
+				}
+			}
+			if !same {
+				files = mirrorFiles
+				cs.Notes = append(cs.Notes, "contracts for "+ip+": repo copy differs from /verif/contracts; the mirror was used")
 			}
 		}
 		sort.Strings(files)
